@@ -24,8 +24,6 @@ from gens import kin
 
 HARNESS_TIMEOUT = 180
 KEY_ACCUM = "tol-is-per-substep-global-error-accumulates"
-KEY_RK1 = "rk1-equal-rate-test-at-start-time"
-KEY_HALF = "transport-first-cell-half-steps-share-time"
 LITERAL = 100.0           # the property's bound: |amount - exact| <= 100 x tol
 TRACE_MAX = 60000          # harness/ph_kin.cpp truncates longer traces
 
@@ -41,7 +39,19 @@ ACCUM_CORPUS = [
      "config": {"T": 1000.0, "tol": 4e-11, "division": ["equal", 1], "incremental": False,
                 "integ": {"cvode": True, "cvode_steps": 100000, "cvode_order": 2, "bad_step_max": 500}}},
 ]
+# fixed in /repo 21ebeca0 (-runge_kutta 1 judged "equal rates" with the end rate evaluated at the start time: nothing reacted, 50000 x
+# tol) and 318cfd0e (TRANSPORT ran both halves of the first cell's kinetic time from the same start time: cell 1 off by 6250 x tol)
+FLOW_CORPUS = [
+    {"mode": "transport", "cells": 2, "shifts": 1, "dt": 100.0, "tol": 1e-8, "kind": "tquad", "p": {"m0": 0.01, "a": 1e-7},
+     "integ": {"cvode": False, "rk": 6, "step_divide": 1, "bad_step_max": 500},
+     "flow": "forward", "disp": 0.0, "bc": "flux flux", "diffc": 0.0, "stagnant": False},
+    {"mode": "advection", "cells": 1, "shifts": 3, "dt": 100.0, "tol": 1e-8, "kind": "tquad", "p": {"m0": 0.01, "a": 1e-7},
+     "integ": {"cvode": False, "rk": 1, "step_divide": 1, "bad_step_max": 500}},
+]
 CORPUS = [
+    {"problem": {"kind": "tquad", "p": {"m0": 0.01, "a": 1e-7}},
+     "config": {"T": 300.0, "tol": 1e-8, "division": ["list", [100.0, 300.0]], "incremental": True,
+                "integ": {"cvode": False, "rk": 1, "step_divide": 1, "bad_step_max": 500}}},
     {"problem": {"kind": "first", "p": {"m0": 0.0004376945293302126, "k": 0.0058141165059866886}},
      "config": {"T": 419.4388976595506, "tol": 6.935194474680307e-08,
                 "division": ["list", [28.442288466879507, 124.39999645352546, 250.94387366349355, 360.36090289919844,
@@ -331,11 +341,7 @@ def analyse(prob, cfg, r):
             out["ratio"] = max(out["ratio"], ratio)
             if lit > out["literal"]:
                 out["literal"] = lit
-            if ratio > 1.0 and prob.kind == "tquad" and not cfg["integ"]["cvode"] and cfg["integ"]["rk"] <= 1 \
-                    and cfg["integ"]["step_divide"] <= 1:
-                # -runge_kutta 1: the "rate at the end of the step" is evaluated at the start time (candidate finding KEY_RK1)
-                out["rk1_time"] = max(out.get("rk1_time", 0.0), lit)
-            elif ratio > 1.0:
+            if ratio > 1.0:
                 # beyond what per-sub-step error control can explain: violation
                 out["band"] = "violation"
                 out["problems"].append(("closed-form", f"step {step} (t = {t_end!r}): {nm} = {got!r}, exact solution {v!r}: "
@@ -356,7 +362,7 @@ def analyse(prob, cfg, r):
 # ------------------------------------------------------------------------------------------------------------------
 def analyse_flow(cfg, r):
     """every punched (cell, shift): TOTAL_TIME = shift x time_step and the amount of the solid reactant = closed form at that time"""
-    out = {"status": "ok", "problems": [], "band": "within100", "literal": 0.0, "accum": None, "rk1_time": 0.0, "half": None, "rows": 0}
+    out = {"status": "ok", "problems": [], "band": "within100", "literal": 0.0, "accum": None, "rows": 0}
     if r is None:
         out["status"] = "timeout"
         return out
@@ -369,11 +375,6 @@ def analyse_flow(cfg, r):
     n, dt, tol = cfg["cells"], cfg["dt"], cfg["tol"]
     nev = sum(1 for a in r["trace"] if a[2] == "A")
     bound = tol * max(100.0, 2.0 * nev)
-    rk1 = (not cfg["integ"]["cvode"]) and cfg["integ"]["rk"] <= 1 and cfg["integ"]["step_divide"] <= 1
-    # first cell in flow direction gets its kinetic time in two halves (transport.cpp "halftime kinetics for resident water")
-    first_c = None
-    if cfg["mode"] == "transport" and n > 1 and cfg.get("flow") != "diffusion_only":
-        first_c = 1 if cfg["flow"] == "forward" else n
     seen = {}
     for row in r["rows"]:
         cell, tt, m = row[0], row[1], row[2]
@@ -390,20 +391,12 @@ def analyse_flow(cfg, r):
         if m < 0:
             out["problems"].append(("negative", f"cell {cell} shift {shift}: amount {m!r}"))
         if abs(tt - t_exp) > 1e-9 * t_exp:
-            if cell == first_c:
-                out["half"] = {"what": "TOTAL_TIME", "cell": cell, "shift": shift, "reported": tt, "expected": t_exp}
-            else:
-                out["problems"].append(("time", f"cell {cell} shift {shift}: TOTAL_TIME {tt!r}, expected {t_exp!r}"))
+            out["problems"].append(("time", f"cell {cell} shift {shift}: TOTAL_TIME {tt!r}, expected {t_exp!r}"))
         ex = kin.flow_exact(cfg, t_exp)
         lit = abs(m - ex) / tol
         out["literal"] = max(out["literal"], lit)
         if abs(m - ex) > bound:
-            if cfg["kind"] == "tquad" and cell == first_c:
-                if out["half"] is None or out["half"].get("what") != "amount":
-                    out["half"] = {"what": "amount", "cell": cell, "shift": shift, "x_tol": lit, "amount": m, "exact": ex}
-            elif cfg["kind"] == "tquad" and rk1:
-                out["rk1_time"] = max(out["rk1_time"], lit)
-            else:
+            if True:
                 out["band"] = "violation"
                 out["problems"].append(("closed-form", f"{cfg['mode']} cell {cell} after shift {shift} (t = {t_exp!r}): A = {m!r}, exact {ex!r}: "
                                         f"difference {lit:.4g} x tol, property allows 100 x tol, accumulation would explain {bound / tol:.4g} x tol"))
@@ -569,7 +562,6 @@ def run(ctx):
 
     bands = {"within100": 0, "finding": 0, "violation": 0}
     bands_by_integrator = {}
-    rk1_batch = [None]
     accum_best = [None]          # (x_tol, replay, detail) of the largest excess over 100 x tol that accumulation explains
 
     def note_accum(x_tol, replay_data, detail):
@@ -615,6 +607,13 @@ def run(ctx):
         if o["problems"]:
             ctx.violation(f"corpus case fails again — {o['problems'][0][0]}: {o['problems'][0][1]}",
                           {"kind": "closed", "problem": item["problem"], "config": item["config"]})
+
+    for cfgf in FLOW_CORPUS:
+        o = analyse_flow(cfgf, run_inputs(exe, [kin.flow_input(cfgf)], trace=True)[0])
+        evals += 1
+        bump("corpus")
+        if o["status"] != "ok" or o["problems"]:
+            ctx.violation(f"corpus case fails again — {o['problems'][0] if o['problems'] else o['status']}", {"kind": "flow", "config": cfgf})
 
     # ---- (3) Current_step ---------------------------------------------------------------------------------------
     ops = [gen_curstep(rng) for _ in range(n_cur)]
@@ -694,10 +693,6 @@ def run(ctx):
             account(prob, cfg, o)
             if o["accum"]:
                 note_accum(o["accum"]["x_tol"], {"kind": "closed", "problem": prob.to_json(), "config": cfg}, o["accum"])
-            if o.get("rk1_time"):
-                bump("batch runs showing " + KEY_RK1)
-                if rk1_batch[0] is None or o["rk1_time"] > rk1_batch[0][0]:
-                    rk1_batch[0] = (o["rk1_time"], {"kind": "closed", "problem": prob.to_json(), "config": cfg})
             worst_ratio = max(worst_ratio, o["ratio"])
             worst_bal = max(worst_bal, o["balance"])
             if o["restarts"]:
@@ -724,7 +719,6 @@ def run(ctx):
     with cf.ThreadPoolExecutor(vlib.NCPU) as ex:
         fouts = [o for grp in ex.map(flow_group, fgroups) for o in grp]
     flow_rows = 0
-    rk1_best, half_best = [None], [None]
     for cfgf, o in zip(flows, fouts):
         evals += 1
         bump("flow " + cfgf["mode"] + (" " + cfgf["flow"] if cfgf["mode"] == "transport" else ""))
@@ -739,10 +733,6 @@ def run(ctx):
         bands[o["band"]] += 1
         if o["accum"]:
             note_accum(o["accum"]["x_tol"], {"kind": "flow", "config": cfgf}, o["accum"])
-        if o["rk1_time"] and (rk1_best[0] is None or o["rk1_time"] > rk1_best[0][0]):
-            rk1_best[0] = (o["rk1_time"], {"kind": "flow", "config": cfgf})
-        if o["half"] and half_best[0] is None:
-            half_best[0] = (o["half"], {"kind": "flow", "config": cfgf})
         for kind_, text in o["problems"][:1]:
             if len(ctx.violations) < 4:
                 ctx.violation(f"{kind_}: {text}", {"kind": "flow", "config": cfgf})
@@ -782,14 +772,6 @@ def run(ctx):
     if accum_best[0] is not None:
         x_tol, rp, detail = accum_best[0]
         ctx.finding(KEY_ACCUM, f"amount at T differs from the exact solution by {x_tol:.4g} x tol (property: 100 x tol); {detail}", rp)
-    best_rk1 = max([x for x in (rk1_batch[0], rk1_best[0]) if x is not None], key=lambda x: x[0], default=None)
-    if best_rk1 is not None:
-        ctx.finding(KEY_RK1, f"rate = a x TOTAL_TIME with -runge_kutta 1 (-step_divide <= 1): the Euler exit compares the rate at the start of the "
-                    f"step with a 'rate at the end' that is evaluated at the same TOTAL_TIME, finds them equal and keeps the Euler amount: "
-                    f"{best_rk1[0]:.4g} x tol off the exact solution (other -runge_kutta settings: exact)", best_rk1[1])
-    if half_best[0] is not None:
-        ctx.finding(KEY_HALF, f"TRANSPORT with flow and more than one cell: the first cell gets its kinetic time in two half steps that both start at "
-                    f"the same rate_sim_time_start; {half_best[0][0]}", half_best[0][1])
     ctx.cov["tolerance_bands"] = {"runs <= 100 x tol": bands["within100"], "runs in the finding band (100 x tol < error <= sqrt(n) x tol x "
                                   "max(100, 2 x evaluations))": bands["finding"], "runs beyond (violation)": bands["violation"],
                                   "by_integrator": dict(sorted(bands_by_integrator.items())),
@@ -851,10 +833,6 @@ def replay(ctx, data):
         print("replay:", json.dumps(o, default=str)[:1500])
         if o["problems"]:
             ctx.violation("replayed case still fails: " + o["problems"][0][1], data)
-        if o["rk1_time"]:
-            ctx.finding(KEY_RK1, f"replayed: {o['rk1_time']:.4g} x tol", data)
-        if o["half"]:
-            ctx.finding(KEY_HALF, f"replayed: {o['half']}", data)
     elif kind_ == "library":
         cfgs = data["configs"]
         for c in cfgs:
